@@ -74,6 +74,10 @@ func (m *gmap) saveUndo(fr *frame) {
 		saved[i] = *e
 	}
 	ps.undo = append(ps.undo, undoRec{m: m, ents: saved})
+	if ps.logWrites {
+		// Go-map mutations (insert/delete/clear) enter the write log too (zzWritesInto)
+		ps.mapWrites = append(ps.mapWrites, m)
+	}
 }
 
 func (m *gmap) restore(saved []gent) {
